@@ -410,6 +410,19 @@ pub fn corrupt_chars(rng: &mut impl Rng, text: &str) -> String {
             return cs.into_iter().collect();
         }
     }
+    // now and then a blank the engine does NOT treat as white space (NBSP, VT, FF, EM SPACE) in place of an ordinary one, and a surplus closer
+    if rng.gen_bool(0.15) {
+        const BLANKS: &[char] = &['\u{A0}', '\u{B}', '\u{C}', '\u{2003}', '\u{85}', '\u{3000}'];
+        let spots: Vec<usize> = cs.iter().enumerate().filter(|(_, c)| **c == ' ').map(|(i, _)| i).collect();
+        if !spots.is_empty() {
+            cs[spots[rng.gen_range(0..spots.len())]] = BLANKS[rng.gen_range(0..BLANKS.len())];
+            if rng.gen_bool(0.5) {
+                let at = rng.gen_range(0..=cs.len());
+                cs.insert(at, [')', ']', '}'][rng.gen_range(0..3)]);
+            }
+            return cs.into_iter().collect();
+        }
+    }
     for _ in 0..rng.gen_range(1..3) {
         if cs.is_empty() {
             cs.push(JUNK[rng.gen_range(0..JUNK.len())]);
